@@ -167,7 +167,23 @@ def run_impl(case):
                     data3.append(ne)
             f3 = RF(data=data3)
             api_ok = (written(f1) == written(f3)) if bool(f1 == f3) and bool(f3 == f1) else True
-            return {"checks": {"equal_file_built_through_the_api_writes_identical_output": api_ok, "read_twice_files_equal": bool(f1 == f2), "read_twice_reverse_equal": bool(f2 == f1), "read_twice_not_unequal": not (f1 != f2), "read_twice_data_equal": bool(f1.data == f2.data), "equal_files_write_identical_output": written(f1) == written(f2)}}
+
+            # a fourth one whose whole numbers are held as floats (a column that went through a float64 Series
+            # comes back as 10.0): Python compares 10 == 10.0 equal, so the files compare equal — and equal
+            # files write identical output
+            def as_float(v):
+                return float(v) if isinstance(v, int) and not isinstance(v, bool) and abs(v) < 2**53 else copy.deepcopy(v)
+
+            data4 = None
+            for e in els:
+                ne = type(e)(data=[as_float(v) for v in e.data] if isinstance(e.data, list) else copy.deepcopy(e.data))
+                if data4 is None:
+                    data4 = RegisterData(ne)
+                else:
+                    data4.append(ne)
+            f4 = RF(data=data4)
+            flt_ok = (written(f1) == written(f4)) if bool(f1 == f4) and bool(f4 == f1) else True
+            return {"checks": {"equal_file_holding_whole_numbers_as_floats_writes_identical_output": flt_ok, "equal_file_built_through_the_api_writes_identical_output": api_ok, "read_twice_files_equal": bool(f1 == f2), "read_twice_reverse_equal": bool(f2 == f1), "read_twice_not_unequal": not (f1 != f2), "read_twice_data_equal": bool(f1.data == f2.data), "equal_files_write_identical_output": written(f1) == written(f2)}}
         fam = case["family"]
         types = mk_classes(fam)
         fa = build(fam, case["a"], types, case.get("route_a", "append"), case.get("fcls_a", "base"))
